@@ -1820,6 +1820,12 @@ Expr={expr}"""
         """
         if not np.allclose(sum(frac), 1):
             raise ValueError("frac should sum to 1")
+        if isinstance(random_state, np.random.RandomState):
+            # Draw from the passed RandomState once, now. Keeping the mutable
+            # state object as an operand made every re-planned copy of the
+            # split draw fresh per-partition seeds from it, so computing the
+            # same pieces twice could return different rows.
+            random_state = int(random_state.randint(np.iinfo(np.int32).max))
         frame = expr.Split(self, frac, random_state, shuffle)
 
         out = []
